@@ -32,6 +32,12 @@ PROPS = {
                 {"name": "render", "test": "TestC13", "quick_checks": 1500, "thorough_checks": 120000, "thorough_shards": 16},
                 {"name": "hermetic", "test": "TestC13Hermetic", "quick_checks": 3000, "thorough_checks": 200000, "thorough_shards": 8, "replayable": False},
             ]},
+    "C14": {"level": "exploration", "assumptions": ENGINE_ASSUMPTIONS + ["the 1 MiB chunk limit is a constant; sizes are generated around it but the number of near-limit objects per case is small"],
+            "parts": [
+                {"name": "differential", "test": "TestC14Differential", "quick_checks": 400, "thorough_checks": 40000, "thorough_shards": 16},
+                {"name": "packages", "test": "TestC14Packages", "quick_checks": 300, "thorough_checks": 20000, "thorough_shards": 16},
+                {"name": "chunking", "vehicle": "overlay", "pkg": "internal/packages/internal/packagedeploy", "test": "TestC14Chunking", "quick_checks": 1200, "thorough_checks": 16000, "thorough_shards": 16},
+            ]},
     "C17": {"level": "exploration", "assumptions": PURE_ASSUMPTIONS,
             "parts": [{"name": "probing", "test": "TestC17", "quick_checks": 20000, "thorough_checks": 2000000, "thorough_shards": 16}]},
     "C04": engine_prop("TestC04"),
